@@ -429,10 +429,21 @@ enum Mode {
     AcceptAll,
     AtMost(usize),
     RefuseAll,
+    /// refusal depends on the input: a batch may hold inputs whose "sizes" (`size_of`) sum
+    /// to at most this many, so a later small input would fit where an earlier big one did not
+    /// (what a byte-limited core such as the log's write core does)
+    SizeLimit(u64),
+}
+
+/// The "size" of an input for the size-limited core: 1..=6, well mixed over the inputs.
+fn size_of(input: u64) -> u64 {
+    (input.wrapping_mul(0x9e3779b97f4a7c15) >> 40) % 6 + 1
 }
 
 struct Core {
     mode: Mode,
+    /// scheduler yields inside `work`: a busy leader, so that callers pile up behind it
+    slow: u32,
     seen: Vec<u64>,
     batches: Vec<usize>,
 }
@@ -441,11 +452,12 @@ impl sync42::work_coalescing_queue::WorkCoalescingCore<u64, u64> for Core {
     type InputAccumulator = Vec<u64>;
     type OutputIterator<'a> = std::vec::IntoIter<u64>;
 
-    fn can_batch(&self, acc: &Vec<u64>, _other: &u64) -> bool {
+    fn can_batch(&self, acc: &Vec<u64>, other: &u64) -> bool {
         match self.mode {
             Mode::AcceptAll => true,
             Mode::AtMost(k) => acc.len() < k,
             Mode::RefuseAll => false,
+            Mode::SizeLimit(limit) => acc.iter().map(|i| size_of(*i)).sum::<u64>() + size_of(*other) <= limit,
         }
     }
 
@@ -459,6 +471,9 @@ impl sync42::work_coalescing_queue::WorkCoalescingCore<u64, u64> for Core {
             violation("queue-taken-differs-from-batched-inputs", format!("taken {taken}, batched {acc:?}"));
         }
         self.batches.push(acc.len());
+        for _ in 0..self.slow {
+            thread::sleep(std::time::Duration::ZERO);
+        }
         let mut out = Vec::new();
         for i in acc {
             self.seen.push(i);
@@ -471,17 +486,19 @@ impl sync42::work_coalescing_queue::WorkCoalescingCore<u64, u64> for Core {
 pub fn wcq(seed: u64, slot: &Slot) {
     use sync42::work_coalescing_queue::WorkCoalescingQueue;
     let mut rng = Rng::new(seed);
-    let mode = match rng.below(3) {
+    let mode = match rng.below(4) {
         0 => Mode::AcceptAll,
         1 => Mode::AtMost(rng.range(1, 3) as usize),
+        2 => Mode::SizeLimit(rng.range(3, 9)),
         _ => Mode::RefuseAll,
     };
     let q = Arc::new(WorkCoalescingQueue::new(Core {
         mode,
+        slow: *rng.pick(&[0u32, 0, 30, 200]),
         seen: Vec::new(),
         batches: Vec::new(),
     }));
-    let n_t = rng.range(2, 5) as usize;
+    let n_t = rng.range(2, 6) as usize;
     let per = rng.range(1, 3);
     let clock = Arc::new(AtomicU64::new(0));
     let stamps: Arc<StdMutex<Vec<(u64, u64, u64)>>> = Arc::new(StdMutex::new(Vec::new()));
@@ -533,6 +550,17 @@ pub fn wcq(seed: u64, slot: &Slot) {
     if let Mode::RefuseAll = mode {
         if coalesced {
             violation("queue-batched-although-core-refused", format!("{:?}", core.batches));
+        }
+    }
+    if let Mode::SizeLimit(limit) = mode {
+        // a batch of more than one input never exceeds the limit (a lone input may)
+        let mut at = 0;
+        for b in core.batches.iter() {
+            let size: u64 = core.seen[at..at + *b].iter().map(|i| size_of(*i)).sum();
+            if *b > 1 && size > limit {
+                violation("queue-batched-more-than-core-allowed", format!("size limit {limit}, a batch of {b} inputs sums to {size}"));
+            }
+            at += *b;
         }
     }
     if let Mode::AtMost(k) = mode {
